@@ -7,6 +7,8 @@ Model: `Acl/List.lean` (`AddRawRecord`, `AddRawRecords`, `build` over the state 
 import AnySyncModel.Acl.ListLemmas
 import AnySyncModel.Acl.Chain
 import AnySyncModel.Acl.Requests
+import AnySyncModel.Acl.KeepLemmas
+import AnySyncModel.Acl.KeepEq
 import AnySyncModel.Generated.AclFacts
 
 namespace AnySync.Acl
@@ -272,7 +274,53 @@ theorem client_view_agrees (cfg : Cfg) (s s' : State) (rec me : Nat) (r : Record
     applyRecord cfg false s rec (shrinkRecord me r) = .ok s' := by
   rw [shrink_invariant]; exact novalidate_agrees cfg s s' rec r h
 
+/-! ## the byte-level fast path of the partial decode (keepidentity.go) -/
+
+/-- **totality**: on every byte string, for every `isOurs` predicate and every element decoder, the
+strict fast path `keepIdentityFast` neither panics (every `d[i:]` it evaluates is in bounds) nor
+loops forever (every iteration consumes at least one byte): it returns a message or defers to the
+full decode. -/
+theorem keep_fast_total (dec : Keep.Fast.ErkDecoder) (isOurs : Keep.Bytes → Bool) (d : Keep.Bytes) :
+    Keep.Fast.keepIdentityFast dec isOurs d ≠ .panic ∧ Keep.Fast.keepIdentityFast dec isOurs d ≠ .hang :=
+  Keep.keepIdentityFast_safe dec isOurs d
+
+/-- a successful tag / payload read moves strictly forward and stays inside the buffer (this is what
+a dropped `n < 0` check in `readBytes` breaks) -/
+theorem keep_reads_progress (d : Keep.Bytes) (i : Int) (h0 : 0 ≤ i) (h1 : i ≤ d.length) :
+    (∀ f wt ni, Keep.Fast.readTag d i = .ok (f, wt, ni) → i < ni ∧ ni ≤ d.length) ∧
+    (∀ p ni, Keep.Fast.readBytes d i = .ok (p, ni) → i < ni ∧ ni ≤ d.length) :=
+  ⟨(Keep.readTag_spec d i h0 h1).2, (Keep.readBytes_spec d i h0 h1).2⟩
+
+/-- Full statement of the equivalence the partial decode relies on: whenever the strict fast path
+does not bail out, the generated decoders followed by `filterAccountKeys` succeed with the same
+message. (`other` = the fourteen generated decoders of the content variants without read keys;
+well-formed bytes: every element below 256, buffer shorter than 2^63.) -/
+def C03_keep_fast_eq_full : Prop :=
+  ∀ (other : Int → Keep.Bytes → Bool) (isOurs : Keep.Bytes → Bool) (d : Keep.Bytes) (out : List Keep.Cnt),
+    (∀ x ∈ d, x < 256) → d.length < 2 ^ 63 →
+    Keep.fast isOurs d = .ok out → Keep.fullDecodeFilter other isOurs d = some out
+
+/-- **keepIdentityFast = fullDecodeFilter wherever the fast path does not bail out** — proved over the
+protobuf wire grammar: protowire and the generated varint loops read the same tags and lengths on
+every input protowire accepts, and each strict loop of the fast path is simulated by the generated
+message loop of the same level (element, read key change, account remove, content value, data). -/
+theorem keep_fast_eq_full : C03_keep_fast_eq_full :=
+  fun other isOurs d out hd hlen h => Keep.fast_eq_full other isOurs d out hd hlen h
+
 /-! ## non-vacuity -/
+
+/-- a canonical read key change with two account keys, the second one ours -/
+example : Keep.fast (fun b => b == [0x0b])
+    [0x0a, 0x14, 0x3a, 0x12, 0x0a, 0x06, 0x0a, 0x01, 0x0a, 0x12, 0x01, 0x01, 0x0a, 0x06, 0x0a, 0x01, 0x0b, 0x12, 0x01, 0x02, 0x12, 0x00]
+    = .ok [.rkc ⟨[⟨[0x0b], [0x02]⟩], [], [], [], []⟩] := by decide
+
+/-- … the full decode + filter agrees on it, and a trailing unknown field makes the fast path defer -/
+example : Keep.fullDecodeFilter (fun _ _ => true) (fun b => b == [0x0b])
+    [0x0a, 0x14, 0x3a, 0x12, 0x0a, 0x06, 0x0a, 0x01, 0x0a, 0x12, 0x01, 0x01, 0x0a, 0x06, 0x0a, 0x01, 0x0b, 0x12, 0x01, 0x02, 0x12, 0x00]
+    = some [.rkc ⟨[⟨[0x0b], [0x02]⟩], [], [], [], []⟩] := by decide
+
+example : Keep.fast (fun b => b == [0x0b]) [0x0a, 0x02, 0x3a, 0x00, 0x40, 0x01] = .bail := by decide
+
 
 example : shrinkRecord 3 ⟨0, 0, [.rkc ⟨true, true, true, [0, 3, 4], [1]⟩, .add [(5, 3)]]⟩
     = ⟨0, 0, [.rkc ⟨true, true, true, [3], [1]⟩, .add [(5, 3)]]⟩ := by decide
